@@ -215,8 +215,56 @@ def run_phase(root: str, phase: dict, trace=None, rng_seed: str = "") -> dict:  
 
         return script
 
+    def foreign_script(calls):
+        """Somebody else's bytes under the entry's file name: not producible by any version of the
+        library, but 'whatever was stored in the directory before' is what the statement says.
+        Never a well-formed (key, value) pair with the right key (that would be undetectable)."""
+
+        def junk(kind: int, entry) -> bytes:
+            import numpy as np  # noqa: PLC0415
+            import sympy as sp  # noqa: PLC0415
+
+            options = [
+                lambda: pickle.dumps((np.array([1, 2]), entry["unfolded"])),
+                lambda: pickle.dumps((entry["expr"],)),
+                lambda: pickle.dumps((entry["expr"], entry["unfolded"], 0)),
+                lambda: pickle.dumps({"key": entry["expr"], "value": entry["unfolded"]}),
+                lambda: pickle.dumps((entry["expr"], None)),
+                lambda: pickle.dumps((entry["expr"], "not an expression")),
+                lambda: pickle.dumps((None, None)),
+                lambda: pickle.dumps([entry["expr"], entry["unfolded"]])[:-3],
+                lambda: b"\x80\x05garbage that is not a pickle",
+                lambda: b"",
+                lambda: b"plain text, no pickle at all\n",
+                lambda: b"\x80\x04\x95\x1c\x00\x00\x00\x00\x00\x00\x00\x8c\x0eno_such_module\x94\x8c\x05Thing\x94\x93\x94.",
+                lambda: pickle.dumps((sp.Symbol("unrelated"), sp.Symbol("unrelated") + 1)),
+                lambda: pickle.dumps(np.float64(3.5)),
+            ]
+            return options[kind % len(options)]()
+
+        def script(actor):
+            for call in calls:
+                entry = POOL[call["expr"] % len(POOL)]
+                directory = _cache_dir(root, "shared")
+                actor.in_call = True
+                sim.seam("call-begin", "foreign:" + entry["name"])
+                os.makedirs(directory, exist_ok=True)
+                filename = os.path.join(directory, f"{get_readable_hash(entry['expr'])}.pkl")
+                try:
+                    with open(filename, "wb") as f:
+                        f.write(junk(call.get("junk", 0), entry))
+                except OSError:
+                    pass
+                sim.probe("foreign_file_written")
+                sim.seam("call-end", "foreign:" + entry["name"])
+                actor.in_call = False
+
+        return script
+
     for spec in phase["actors"]:
-        if spec.get("kind") == "legacy":
+        if spec.get("kind") == "foreign":
+            sim.spawn("foreign", foreign_script(spec["calls"]), faults=not verify)
+        elif spec.get("kind") == "legacy":
             sim.spawn("legacy", legacy_script(spec["calls"]), faults=not verify)
         else:
             sim.spawn("user", user_script(spec["calls"]), faults=not verify)
